@@ -1,10 +1,105 @@
 import KawinV.Proto
-/-! driver verbs for C04 (stub: no verbs yet) -/
+import KawinV.Model.Diffusion
+/-! driver verbs for the diffusion mesh model (Float instance) -/
 namespace KawinV.Drv.C04
-open KawinV.Proto
+open KawinV.Proto KawinV.Diffusion
+
+def fn (a : Array Float) : Nat → Float := fun i => a.getD i 0.0
+
+/-- row-major (element, index) table of row length `len` -/
+def tab (a : Array Float) (len : Nat) : Nat → Nat → Float := fun e i => a.getD (e * len + i) 0.0
+
+def mat (E N : Nat) (x : State Float) : Array Float := Id.run do
+  let mut a := Array.mkEmpty (E * N)
+  for e in [0:E] do
+    for i in [0:N] do
+      a := a.push (x e i)
+  return a
+
+def bcType : P BCType := do
+  let t ← nat
+  match t with
+  | 0 => pure .flux
+  | 1 => pure .comp
+  | _ => failure
+
+def bcP : P (BC Float) := do
+  let lt ← bcType; let lv ← flt; let rt ← bcType; let rv ← flt
+  pure ⟨lt, lv, rt, rv⟩
+
+def schemeP : P Scheme := do
+  let t ← nat
+  match t with
+  | 0 => pure .euler
+  | 1 => pure .rk4
+  | _ => failure
+
+def cfgP : P (Cfg Float) := do
+  let N ← nat; let E ← nat; let dz ← flt; let minC ← flt; let nAll ← flt
+  let bcs ← rep bcP E
+  let bca := bcs.toArray
+  pure { N := N, E := E, dz := dz, minC := minC, nAll := nAll,
+         bc := fun e => bca.getD e ⟨.flux, 0.0, .flux, 0.0⟩ }
+
+/-- dif.solve  N E dz minC nAll bc(E) scheme built(E*N) hist(list of dt lists) fluxes(list of E*(N+1) raw tables, one per
+    `_getFluxes` call)
+    → per solve call: `K x(E*N)` after setup (or `E`, then the answer stops), per step `x(E*N)`;
+      finally `S x(E*N)` / `X`: the state after the whole history through `solves`. -/
+def solve : P String := do
+  let cfg ← cfgP
+  let sch ← schemeP
+  let built ← flts
+  let hist ← lst flts
+  let tables ← lst flts
+  let N := cfg.N; let E := cfg.E
+  let tabs := (tables.map (fun t => t.toArray)).toArray
+  let F : Nat → State Float → Nat → Nat → Float := fun c _ e j => tab (tabs.getD c #[]) (N+1) e j
+  let builtS : State Float := tab built.toArray N
+  let zero : State Float := fun _ _ => 0.0
+  let mut out : Array String := #[]
+  let mut c := 0
+  let mut s : MState Float := ⟨zero, false⟩
+  let mut failed := false
+  for dts in hist do
+    if failed then break
+    match setup cfg builtS s with
+    | .error _ =>
+      out := out.push "E"
+      failed := true
+    | .ok s1 =>
+      let a0 := mat E N s1.x
+      out := out.push ("K " ++ flist a0.toList)
+      let mut x : State Float := tab a0 N
+      for dt in dts do
+        let a := mat E N (step cfg sch F c x dt)
+        out := out.push (flist a.toList)
+        x := tab a N
+        c := c + calls sch
+      s := ⟨x, true⟩
+  match solves cfg sch F builtS (0, ⟨zero, false⟩) hist with
+  | .error _ => out := out.push "X"
+  | .ok (_, sf) => out := out.push ("S " ++ flist (mat E N sf.x).toList)
+  pure (" ".intercalate out.toList)
+
+/-- dif.rhs  N dz bc Jraw(N+1) → BC-applied fluxes (N+1), dXdt (N)  (one element row) -/
+def rhsV : P String := do
+  let N ← nat; let dz ← flt; let bc ← bcP; let J ← flts
+  let Jb := applyBC N bc (fn J.toArray)
+  let d := rhs N dz (fun _ => bc) (fun _ => fn J.toArray) 0
+  pure s!"{flist ((List.range (N+1)).map Jb)} {flist ((List.range N).map d)}"
+
+/-- dif.vframe  subst(indices) J(all elements) u(all elements) → Jv(all elements), Σ_subst Jv -/
+def vframe : P String := do
+  let subst ← lst nat; let J ← flts; let u ← flts
+  let n := J.length
+  let Jv := vflux subst (fn J.toArray) (fn u.toArray)
+  pure s!"{flist ((List.range n).map Jv)} {fout (sumOver subst Jv)}"
 
 def handle (verb : String) : Option (P String) :=
   match verb with
+  | "dif.solve" => some solve
+  | "dif.rhs" => some rhsV
+  | "dif.vframe" => some vframe
   | _ => none
 
 end KawinV.Drv.C04
